@@ -828,12 +828,19 @@ impl Archive {
                 return Ok(true); // Empty table is valid
             }
 
-            // Read raw table data
-            self.reader
-                .seek(SeekFrom::Start(self.archive_offset + offset))?;
-            let mut table_data = vec![0u8; size as usize];
-            match self.reader.read_exact(&mut table_data) {
-                Ok(_) => {
+            // Read raw table data. Position and size are 64-bit header fields: the
+            // position must not overflow, and the data is read through `take` so the
+            // buffer only grows as far as the file really delivers data.
+            let Some(table_pos) = self.archive_offset.checked_add(offset) else {
+                log::warn!(
+                    "Table offset 0x{offset:X} for MD5 validation is outside the addressable range"
+                );
+                return Ok(false);
+            };
+            self.reader.seek(SeekFrom::Start(table_pos))?;
+            let mut table_data = Vec::new();
+            match self.reader.by_ref().take(size).read_to_end(&mut table_data) {
+                Ok(n) if n as u64 == size => {
                     // Calculate MD5
                     let mut hasher = Md5::new();
                     hasher.update(&table_data);
@@ -841,12 +848,15 @@ impl Archive {
 
                     Ok(actual_md5 == *expected)
                 }
+                Ok(n) => {
+                    log::warn!(
+                        "Failed to read table data for MD5 validation at offset 0x{table_pos:X}, size {size}: only {n} bytes available"
+                    );
+                    Ok(false)
+                }
                 Err(e) => {
                     log::warn!(
-                        "Failed to read table data for MD5 validation at offset 0x{:X}, size {}: {}",
-                        self.archive_offset + offset,
-                        size,
-                        e
+                        "Failed to read table data for MD5 validation at offset 0x{table_pos:X}, size {size}: {e}"
                     );
                     Ok(false)
                 }
